@@ -90,8 +90,10 @@ def main():
         os.makedirs(dst, exist_ok=True)
         open(os.path.join(dst, "patch.diff"), "w").write(diff_text)
         shutil.copy(demo_src, os.path.join(dst, "demo.py"))
-        if os.path.exists(f"{src}/notes.md"):
-            shutil.copy(f"{src}/notes.md", os.path.join(dst, "notes.md"))
+        for nf in (f"{src}/notes{var}.md", f"{src}/notes.md"):
+            if os.path.exists(nf):
+                shutil.copy(nf, os.path.join(dst, "notes.md"))
+                break
         json.dump(meta, open(os.path.join(dst, "meta.json"), "w"), indent=1)
     print(json.dumps(meta, indent=1))
     return 0
